@@ -6,6 +6,7 @@ import forward_common as fw
 def run(ctx):
     q = ctx.quick()
     fw.l1(ctx)
+    fw.graph(ctx, q)
     fw.traces(ctx, "c01", 3000 if q else 120000)
     ctx.cov["rule"] = ("seeded random programs recorded from the real RustRuleEngine and interpreted by TLC: single-rule (occasionally two-rule) programs without attributes, condition trees to depth 6 over all ten operators, literal / field-reference / arithmetic right-hand sides and arithmetic test conditions, 0-3 assignments (literals and arithmetic, nested and flat targets), one or two execute calls; the recorded facts after the call, the firing log and the counters must equal what the TLA+ reference semantics computes; "
                        "distinct_nontrivial = number of rule firings in the recorded runs")
